@@ -2,6 +2,7 @@
 //! `vh <ID> --replay <file>`. Exit 0: held on everything explored; 1: violation; 2: machinery error.
 mod common;
 mod e1;
+mod refs;
 mod transport;
 mod wirechecks;
 mod wires;
@@ -25,10 +26,10 @@ fn main() {
         let path = args.get(3).unwrap_or_else(|| usage());
         let text = std::fs::read_to_string(path).expect("cannot read replay file");
         let v: serde_json::Value = serde_json::from_str(&text).expect("replay file is not JSON");
-        let engine = v["case"]["engine"].as_str().unwrap_or("");
-        let code = match engine {
-            "e1" => wirechecks::replay_e1(&v),
-            _ => {
+        let engine = v["case"]["engine"].as_str().unwrap_or("").to_string();
+        let code = match REPLAYERS.iter().find(|(n, _)| *n == engine) {
+            Some((_, f)) => f(&v),
+            None => {
                 eprintln!("no replayer for engine {engine:?}");
                 2
             }
@@ -41,11 +42,9 @@ fn main() {
         _ => usage(),
     };
     let ctx = Ctx::new(id, tier);
-    let report = match id {
-        "C01" => wirechecks::c01(&ctx),
-        "C02" => wirechecks::c02(&ctx),
-        "C19" => wirechecks::c19(&ctx),
-        _ => {
+    let report = match CHECKS.iter().find(|(n, _)| *n == id) {
+        Some((_, f)) => f(&ctx),
+        None => {
             eprintln!("unknown property {id}");
             std::process::exit(2);
         }
@@ -53,3 +52,16 @@ fn main() {
     let code = finish(&ctx, report);
     std::process::exit(code);
 }
+
+type CheckFn = fn(&Ctx) -> Report;
+type ReplayFn = fn(&serde_json::Value) -> i32;
+
+/// property id -> check
+const CHECKS: &[(&str, CheckFn)] = &[
+    ("C01", wirechecks::c01),
+    ("C02", wirechecks::c02),
+    ("C19", wirechecks::c19),
+];
+
+/// replay-file "engine" tag -> replayer
+const REPLAYERS: &[(&str, ReplayFn)] = &[("e1", wirechecks::replay_e1)];
